@@ -2,18 +2,25 @@
   C16 — data queries return exactly the values the path designates.
 
   Model: `View/Query.lean` (`DataQuerent` after the fixes F16a/F16b), specification: `Spec/EvalPath.lean`
-  (evaluation of a child/attribute path over the nested JSON rendering; CPython's `slice.indices`).
-  Everything below is proved for ALL node trees, flat lists, paths and subset counts (no bounds).
+  (evaluation of a child/attribute path over the nested JSON rendering; CPython's `slice.indices`; the decidable
+  predicates `shapeOK` / `ordinaryList`).  Everything below is proved for ALL node trees, flat lists, paths and
+  subset counts (no bounds).
 
   * `C16_pySlice`, `C16_pySlice_lt`, `C16_pySlice_sorted_*`, closed forms `C16_pySlice_all / _idx / _neg / _ab`:
     the model's `pySlice` is `range(*slice(a, b, c).indices(n))`.
-  * `C16_subset_selector` (+ `C16_selected_indices`): an `@` selector restricts the result of the unselected
-    query to exactly the selected subsets.
-  * `C16_compressed_eq_uncompressed_shape`, `C16_compressed_subset_eq`: on a shared tree the compressed
-    query is the uncompressed one, subset by subset.
-  * `C16_filter_for_entities_document_order`: slice application and document order of `filter_for_entities`.
-  * `C16_query_eq_eval_partial`, `C16_bare_id_is_flat_filter_partial`: first stages only; the full statements are
-    kept as comment blocks in their sections and are covered by the correspondence run, not by proof.
+  * `C16_subset_selector`: an `@` selector restricts the result of the unselected query to exactly the selected subsets.
+  * `C16_compressed_eq_uncompressed_shape`, `C16_compressed_subset_eq`, `C16_compressed_trees_shared`: on a shared
+    tree the compressed query is the uncompressed one, subset by subset.
+  * `C16_filter_for_entities_document_order`, `C16_filter_for_entities_bare`: slice application and document order
+    of `filter_for_entities`.
+  * `C16_query_eq_eval_subset`, `C16_query_eq_eval` (FULL: one subset / whole uncompressed message, exact equality
+    including the error), `C16_sub_nodes_eq_eval_at` (the induction step made public), `C16_query_eq_eval_compressed`
+    (exact, filtering succeeds), `C16_query_eq_eval_compressed_partial` (results agree; two restrictions forced by the
+    open finding F16c and the order of evaluation), `C16_eval_fails_only_with_query_error`.
+  * `C16_wire_shape`, `C16_mkMsg_shape`, `C16_wire_indices_consecutive`: the wiring pass establishes the shape
+    hypothesis; tree order = flat order for the tree every reader sees.
+  * `C16_bare_id_descent`, `C16_bare_id_is_flat_filter` (FULL), `_wired`, `C16_bare_id_returns_flat_filter` (+ `_wired`:
+    the query succeeds), `C16_bare_id_query`, `C16_bare_id_query_compressed` (whole message).
 -/
 import BufrModel.Lemmas.Query
 import BufrModel.Lemmas.QueryEval
